@@ -219,6 +219,16 @@ def ev(node, env):
                 if isinstance(k, str) and k.startswith('self.'):
                     env[k] = v
             return rv
+    if isinstance(node, ast.Call) and isinstance(node.func, ast.Name) and node.func.id == 'isinstance' and len(node.args) == 2 and not node.keywords:
+        # a test of the interpreter's own values against built-in types
+        BT = {'int': int, 'str': str, 'tuple': tuple, 'list': list, 'dict': dict, 'float': float, 'bool': bool, 'bytes': bytes, 'bytearray': bytearray, 'set': set, 'frozenset': frozenset}
+        tnode = node.args[1]
+        tnames = [e_ for e_ in (tnode.elts if isinstance(tnode, ast.Tuple) else [tnode])]
+        if all(isinstance(e_, ast.Name) and e_.id in BT and e_.id not in env for e_ in tnames):
+            v_ = ev(node.args[0], env)
+            if isinstance(v_, (int, str, tuple, list, dict, float, bool, bytes, bytearray, set, frozenset)) or v_ is None:
+                return isinstance(v_, tuple(BT[e_.id] for e_ in tnames))
+        raise Unsupported('isinstance(%s)' % ast.unparse(node)[:60])
     if isinstance(node, ast.Call) and isinstance(node.func, ast.Name):
         args = [ev(a, env) for a in node.args]
         if node.func.id == 'divmod' and len(args) == 2:
@@ -250,6 +260,17 @@ def ev(node, env):
             if node.func.id == 'reversed':
                 return items[::-1]
             return tuple(items) if node.func.id == 'tuple' else items
+        if node.func.id == 'dict' and len(args) <= 1 and not node.keywords:
+            if not args:
+                return {}
+            if isinstance(args[0], dict):
+                return dict(args[0])
+            if isinstance(args[0], (list, tuple)) and all(isinstance(x, (list, tuple)) and len(x) == 2 for x in args[0]):
+                try:
+                    return dict(args[0])
+                except TypeError:
+                    raise Unsupported('dict() of unhashable keys')
+            raise Unsupported('dict(...) of %r' % (args[0],))
         if node.func.id == 'range' and 1 <= len(args) <= 3 and not node.keywords and all(isinstance(x, int) for x in args):
             r = range(*args)
             if len(r) > 100000:
@@ -421,7 +442,7 @@ class _Unknown(object):
 UNKNOWN = _Unknown()
 
 
-def run_function(f, env, max_steps=10000, skip_calls=False, tolerant=False):
+def run_function(f, env, max_steps=10000, skip_calls=False, tolerant=False, skip_super=False):
     """Interpret a *decision-table* function: if/elif chains of comparisons that assign or return
     constants / simple arithmetic.  Supports Assign, AugAssign, If, Return, Raise, Pass, Expr(docstring),
     While loops with integer arithmetic (bounded).  Returns the returned value; raises Raised on raise."""
@@ -609,6 +630,9 @@ def run_function(f, env, max_steps=10000, skip_calls=False, tolerant=False):
                 pass
             elif skip_calls and isinstance(s, ast.Expr) and isinstance(s.value, ast.Call):
                 pass
+            elif skip_super and isinstance(s, ast.Expr) and isinstance(s.value, ast.Call) and isinstance(s.value.func, ast.Attribute) and isinstance(s.value.func.value, ast.Call) \
+                    and isinstance(s.value.func.value.func, ast.Name) and s.value.func.value.func.id == 'super':
+                pass          # the base class's part of the construction is not what is being evaluated
             elif isinstance(s, ast.Expr) and isinstance(s.value, ast.Call):
                 ev(s.value, env)      # a checking helper of the same module / object: interpreted (it may raise)
             else:
